@@ -51,10 +51,73 @@ fn run_circuit(circuit: &Circuit<F>, pubs: &[F], privs: &[F]) -> Result<Traces<F
     r.run().map_err(|e| format!("{e:?}"))
 }
 
-/// Cheap check on every history: call-level value == node-level value of the returned node.
+/// Input vectors of one program: the alphabet vectors, and for programs with bit decompositions
+/// additionally 5 (fits 3 bits, not 2) and 9 (fits neither) on one input position at a time: a
+/// decomposition must be judged at its own width even when the same value was decomposed at
+/// another width before.
+fn vectors_for(p: &Program, n_in: usize) -> Vec<Vec<F>> {
+    let mut vecs = vectors(n_in);
+    if n_in > 0 && n_in <= 2 && p.calls.iter().any(|c| matches!(c, vpe1::prog::Call::Bits(..))) {
+        for extra in [5u64, 9] {
+            for pos in 0..n_in {
+                for base in [F::ZERO, F::ONE] {
+                    let mut v = vec![base; n_in];
+                    v[pos] = F::from_u64(extra);
+                    vecs.push(v);
+                }
+            }
+        }
+    }
+    vecs
+}
+
+/// satisfiability signature per compiler input (the explorer compiles and runs only the FIRST
+/// history that reaches a builder DAG): two call histories that give the builder the same DAG
+/// must mean the same thing
+static SAT_SIGS: std::sync::OnceLock<Vec<std::sync::Mutex<std::collections::HashMap<u128, (Vec<u8>, String)>>>> = std::sync::OnceLock::new();
+
+/// Cheap check on every history: call-level value == node-level value of the returned node, and
+/// call-level satisfiability == that of every other history with the same DAG.
 fn check_api(p: &Program, m: &Materialized<F>, cs: &[F]) -> Option<Found> {
+    let vecs = vectors_for(p, m.n_pub + m.n_priv);
+    {
+        let sig: Vec<u8> = vecs
+            .iter()
+            .map(|v| {
+                let (pubs, privs) = split_inputs(m.n_pub, v);
+                let re = ref_eval::<BabyBear, F>(p, cs, &pubs, &privs);
+                if re.undefined { 2 } else if re.sat { 1 } else { 0 }
+            })
+            .collect();
+        let key = vpe1::explore::h128(&m.key());
+        let shards = SAT_SIGS.get_or_init(|| (0..64).map(|_| Default::default()).collect());
+        let mut g = shards[(key as usize) % 64].lock().unwrap();
+        match g.get(&key) {
+            None => {
+                g.insert(key, (sig, p.show()));
+            }
+            // positions where either history is outside the reference model's domain (division
+            // by zero) are not compared
+            Some((s0, p0)) if s0.len() == sig.len() && s0.iter().zip(sig.iter()).any(|(a, b)| *a != 2 && *b != 2 && a != b) => {
+                let i = s0.iter().zip(sig.iter()).position(|(a, b)| *a != 2 && *b != 2 && a != b).unwrap();
+                let name = |c: u8| ["violates an assertion", "satisfies every assertion", "is undefined"][c as usize];
+                return Some(Found {
+                    clause: Clause::Api,
+                    detail: format!(
+                        "the builder holds the same expression DAG and assertions after `{}` and after `{}`, but on this input the first {} and the second {}: a call's statement is missing from (or added to) the compiler input",
+                        p0,
+                        p.show(),
+                        name(s0[i]),
+                        name(sig[i])
+                    ),
+                    inputs: vecs[i].iter().map(fu).collect(),
+                });
+            }
+            Some(_) => {}
+        }
+    }
     // hints make node-level values opaque: compare only where defined
-    for v in vectors(m.n_pub + m.n_priv) {
+    for v in vecs {
         let (pubs, privs) = split_inputs(m.n_pub, &v);
         let re = ref_eval::<BabyBear, F>(p, cs, &pubs, &privs);
         if re.undefined {
@@ -126,21 +189,7 @@ fn check_program(
     let mut found: Vec<Found> = vec![];
     let mut proved_once = false;
     let have = |c: &Clause, found: &Vec<Found>| found.iter().any(|f| f.clause == *c);
-    // programs with bit decompositions additionally get 5 (fits 3 bits, not 2) and 9 (fits
-    // neither 2 nor 3 bits) on every input position, one position at a time: a decomposition must be
-    // judged at its own width even when the same value was decomposed at another width before
-    let mut vecs = vectors(n_in);
-    if n_in > 0 && n_in <= 2 && p.calls.iter().any(|c| matches!(c, vpe1::prog::Call::Bits(..))) {
-        for extra in [5u64, 9] {
-            for pos in 0..n_in {
-                for base in [F::ZERO, F::ONE] {
-                    let mut v = vec![base; n_in];
-                    v[pos] = F::from_u64(extra);
-                    vecs.push(v);
-                }
-            }
-        }
-    }
+    let vecs = vectors_for(p, n_in);
     for v in vecs {
         let (pubs, privs) = split_inputs(n_pub, &v);
         let re = ref_eval::<BabyBear, F>(p, cs, &pubs, &privs);
